@@ -24,6 +24,8 @@ def run(ctx, sess):
     ctx.rule('C01.k', '"however the writes were split into calls", sub-byte types: when a block is flushed, the bits kept in its last, partial byte are the block\'s own remainder (entry_count x width mod 8), computed from the block header - not the running shift state of the packer, which belongs to the call in progress')
     ctx.rule('C01.l', '"for any signal definition the writer accepts": the alignment keeps the divisibility it established between the block size, the decimation factors and the entries per summary (shared with C16.7) - a definition whose entries per summary is not a multiple of the summary decimation makes upper index levels unreadable')
     ctx.rule('C01.n', '"however the writes were split into calls", sub-byte types: the byte that carries the pending bits to the next call also holds bits of the caller\'s buffer behind the last sample - wherever it is merged into stored data it is masked to the pending bit count, or every store into it is masked')
+    ctx.rule('C01.o', '"every type": constant blocks of types of 8 bits or less are rebuilt from the summary mean, which is the stored code only as long as the sample converter rescales nothing, whatever the fixed-point position (shared with C02.10)')
+    ctx.rule('C01.p', '"whatever reads were issued before": the cached level-1 index / summary of the sample reader is marked valid only after both chunks were read - a failed read in between must not leave the previous summary behind a fresh tag (shared with C04.9)')
     ctx.rule('C01.m', '"however the writes were split into calls", sub-byte types: traced for widths 1 and 4, partly filled blocks and call sizes that stay in the block, fill it exactly or cross into the next ones, the bit packer reads every byte of the caller\'s data exactly once')
     ctx.rule('C01.b', 'grow-to-fit: buffer growth strictly increasing and overflow-free; the grow request covers the on-disk payload size for every residue')
     f = P.fn('jls_core_rd_fsr_level1')
@@ -99,6 +101,9 @@ def run(ctx, sess):
     from .common import relay as _relay
     from . import c16 as _src_c16
     _relay(ctx, sess, _src_c16.run, {'C16.7': 'C01.l'}, minimum=1)
+    from . import c02 as _src_c02, c04 as _src_c04
+    _relay(ctx, sess, _src_c02.run, {'C02.10': 'C01.o'}, minimum=1)
+    _relay(ctx, sess, _src_c04.run, {'C04.9': 'C01.p'}, only_functions=('jls_core_rd_fsr_level1', 'jls_core_rd_fsr_data0', 'jls_core_fsr'), minimum=1)
     from .c06 import sample_bytes_rule
     sample_bytes_rule(ctx, P, 'C01.i')
     from .c11 import pending_index_rule
